@@ -610,6 +610,9 @@ def install(M):
         return bytes_eq(I, l[a:a + n], m[c:d])
     pat(r'^core::slice::<impl \[.*\]>::starts_with$', sl_starts_with)
 
+    pat(r'^<f64 as From<(u8|u16|u32|i32)>>::from$', lambda I, v: float(v) if isinstance(v, int) else I.int_to_float(v))
+    pat(r'^<(usize|u64|u32) as From<(u8|u16|u32|bool)>>::from$', lambda I, v: (int(v) if isinstance(v, (int, bool)) else v))
+
     # ---------------- mem
     def mem_replace(I, p, v):
         old = p.get()
